@@ -234,13 +234,13 @@ def slow_one(chk, sseed):
     good = Resp("ok", announced=None, date=None, data=bytes(n), chunks=[n], tag=9)
     first = Resp("ok", announced=None, date=None, data=bytes(n), chunks=chunks, tag=1, delays=delays)
     # expected: first arrival index at which the model's `slow` holds
-    t = 0.0
-    count = 0
+    t10 = 0        # elapsed time in exact tenths of a second (a float sum like 1+0.2+20+0.9+... can come out as 39.999999, whose
+    count = 0      # integer part is 39, while the tool's timedelta rounds to microseconds and sees 40)
     queries = []
     for c, dl in zip(chunks, delays):
-        t += dl
+        t10 += int(round(dl * 10))
         count += c
-        queries.append([startup, slow_rate, int(t), count])
+        queries.append([startup, slow_rate, t10 // 10, count])
     verdicts = driver().call("rate", slow=queries, charge=[])["slow"]
     exp_abort = next((i for i, v in enumerate(verdicts) if v), None)
     old = srp.datetime
